@@ -191,20 +191,27 @@ Fixpoint align (f : formatter) (l : layout) (acc : Z) : res (formatter * Z) :=
   | _ :: r => align f r acc
   end.
 
-Definition render_elem (W off : Z) (f : formatter) (ind : nat) (e : elem) : res (formatter * str) :=
+(* the text of one element before it goes through the formatter; vis = visible width of the label *)
+Definition elem_raw (W off : Z) (ind : nat) (vis : Z) (e : elem) : res str :=
   match e with
-  | EEmpty => emit f [10%N]
+  | EEmpty => Ok [10%N]
   | EPara t =>
     do lines <- wrap t (W - 1 - Z.of_nat ind);
-    emit f (spaces ind ++ rstrip (join_lines (spaces ind) lines) ++ [10%N])
+    Ok (spaces ind ++ rstrip (join_lines (spaces ind) lines) ++ [10%N])
   | ELab label text padding aligned =>
-    do x <- remove_format f label;
-    let vis := zlen (snd x) in
     let tags := (zlen label - vis)%Z in
     let text_offset := Z.max (if aligned then off - Z.of_nat ind else 0) (vis + Z.of_nat padding) in
     do lines <- wrap text (W - 1 - text_offset - Z.of_nat ind);
     let body := join_lines (spaces ind ++ spaces (Z.to_nat text_offset)) lines in
-    emit (fst x) (rstrip (spaces ind ++ ljust label (text_offset + tags) ++ rstrip body) ++ [10%N])
+    Ok (rstrip (spaces ind ++ ljust label (text_offset + tags) ++ rstrip body) ++ [10%N])
+  end.
+Definition render_elem (W off : Z) (f : formatter) (ind : nat) (e : elem) : res (formatter * str) :=
+  match e with
+  | ELab label _ _ _ =>
+    do x <- remove_format f label;
+    do raw <- elem_raw W off ind (zlen (snd x)) e;
+    emit (fst x) raw
+  | _ => do raw <- elem_raw W off ind 0 e; emit f raw
   end.
 Fixpoint render_all (W off : Z) (f : formatter) (l : layout) (out : str) : res (formatter * str) :=
   match l with
